@@ -127,3 +127,73 @@ func optionalArgs(l *tmpl.Linear, start, end int) []string {
 	}
 	return out
 }
+
+
+// checkPointerMarkers: the payload of a response is spelled as a type in several places of one
+// generated file (the field, its getter, its setters); the `*` in front of the type is conditional —
+// and must be emitted under equivalent conditions everywhere, or the file does not compile for the
+// schemas on which the conditions disagree.
+func checkPointerMarkers(c *Ctx, rule string, ev *tmpl.Evaluator) {
+	c.Rule(rule, "the conditional `*` in front of the payload type is emitted under equivalent conditions at the field, getter and setter sites of a response template", 4)
+	rx := regexp.MustCompile(`(\bPayload |GetPayload\(\) |\(payload )\*`)
+	for _, tn := range []string{"clientresponse", "serverresponse"} {
+		l := linearOf(c, ev, tn)
+		if l == nil {
+			c.Anchor(rule, "template "+tn, "not found")
+			continue
+		}
+		type site struct {
+			what string
+			pos  string
+			cond *tmpl.Cond
+		}
+		var sites []site
+		for _, oc := range l.Find(rx) {
+			star := oc.End - 1
+			base := len(l.GuardsAt(oc.Start))
+			gs := l.GuardsAt(star)
+			if len(gs) <= base {
+				continue // unconditional star
+			}
+			sites = append(sites, site{strings.TrimSpace(oc.Match[1]), l.Tree.PosStr(oc.Pos), tmpl.StackCond(gs[base:])})
+		}
+		if len(sites) < 2 {
+			c.Unk(rule, tn+" › payload type sites", l.Tree.File, fmt.Sprintf("%d conditional `*` found", len(sites)))
+			continue
+		}
+		atoms := map[string]bool{}
+		for _, s := range sites {
+			s.cond.Atoms(atoms)
+		}
+		var names []string
+		for a := range atoms {
+			names = append(names, a)
+		}
+		sort.Strings(names)
+		// facts of the view-model that hold for every schema: a stream is never a complex object (resolvedType.setKind is one-hot, C01.R6)
+		feasible := func(env map[string]bool) bool {
+			return !(env[".Schema.IsStream"] && env[".Schema.IsComplexObject"]) && !(env[".Schema.IsInterface"] && env[".Schema.IsComplexObject"])
+		}
+		ref := sites[0]
+		for _, s := range sites {
+			diff := ""
+			for mask := 0; mask < 1<<len(names) && diff == ""; mask++ {
+				env := map[string]bool{}
+				for i, a := range names {
+					env[a] = mask&(1<<i) != 0
+				}
+				if feasible(env) && s.cond.Eval(env) != ref.cond.Eval(env) {
+					var on []string
+					for _, a := range names {
+						if env[a] {
+							on = append(on, a)
+						}
+					}
+					diff = strings.Join(on, ", ")
+				}
+			}
+			c.Check(diff == "", rule, fmt.Sprintf("%s › `*` at %q agrees with %q", tn, s.what, ref.what), s.pos, "equivalent conditions",
+				fmt.Sprintf("with {%s} set, the pointer marker is emitted at one of %q / %q and not at the other: the generated file declares the payload with two different types and does not compile", diff, s.what, ref.what))
+		}
+	}
+}
